@@ -7,7 +7,7 @@ using namespace eng; using namespace gen; using ref::Int; using namespace api;
 
 static const int NZ = 4, NQ = 2, NF = 2;          // private variables per thread
 static const int SZ = 4, SQ = 2, SF = 2;          // shared read-only sources
-struct Shared { mpz_t z[SZ]; mpq_t q[SQ]; mpf_t f[SF]; };
+struct Shared { mpz_t z[SZ]; mpq_t q[SQ]; mpf_t f[SF]; gmp_randstate_t r; };   // r: a template state that threads only copy with gmp_randinit_set
 struct Priv { mpz_t z[NZ]; mpq_t q[NQ]; mpf_t f[NF]; gmp_randstate_t r; };
 struct Step { const Op* op; int zi[5], qi[4], fi[4]; Args sc; };       // indices: >= 0 private, < 0 shared (-1-k)
 struct Plan { std::vector<Step> steps; uint64_t seed; unsigned skew; };
@@ -21,6 +21,8 @@ static uint64_t run_plan(const Plan& pl, const Shared& sh) {
   Priv p; priv_init(p, pl.seed); uint64_t h = 1469598103934665603ull;
   for (volatile unsigned i = 0; i < pl.skew; i++) { }
   for (const Step& s : pl.steps) {
+    if (!s.op) {   // copy the shared template state (read-only use of a random state) and draw from the private copy
+      gmp_randstate_t t; gmp_randinit_set(t, sh.r); mpz_urandomb(p.z[0], t, 200); uint64_t v = gmp_urandomb_ui(t, 64); gmp_randclear(t); h = fold(h, &v, 8); h = digest_priv(h, p); continue; }
     Args a = s.sc; Sig g = parse_sig(s.op->sig); int nzz = g.zo + g.zi, nqq = g.qo + g.qi, nff = g.fo + g.fi;
     for (int k = 0; k < nzz; k++) a.z[k] = s.zi[k] >= 0 ? p.z[s.zi[k]] : (mpz_ptr)sh.z[-1 - s.zi[k]];
     for (int k = 0; k < nqq; k++) a.q[k] = s.qi[k] >= 0 ? p.q[s.qi[k]] : (mpq_ptr)sh.q[-1 - s.qi[k]];
@@ -47,17 +49,18 @@ static void check(ByteSource& in, CaseInfo& ci) {
   Shared sh; size_t big = in.chance(40) ? (size_t)in.range(3600, 4200) : 0;   // FFT-size shared operand: heap temporaries
   for (int i = 0; i < SZ; i++) { mpz_init(sh.z[i]); Int v = gen_int(in, (size_t)expcap(in.scale, 2, 60)); if (i == 0 && big) { Limbs l = limbs_nz(in, big); v = Int::from_limbs(l.data(), big); } mpz_from_int(sh.z[i], v); }
   for (int i = 0; i < SQ; i++) { mpq_init(sh.q[i]); mpq_set_si(sh.q[i], in.srange(-1000, 1000), in.range(1, 1000)); mpq_canonicalize(sh.q[i]); } for (int i = 0; i < SF; i++) { mpf_init2(sh.f[i], 128); mpf_set_d(sh.f[i], std::ldexp((double)in.srange(-100000, 100000), (int)in.srange(-10, 10))); }
+  { gmp_randinit_mt(sh.r); gmp_randseed_ui(sh.r, in.range(0, 1000)); static const unsigned pre[] = {0, 248, 247, 249, 560, 1}; unsigned k = in.flag() ? pre[in.range(0, 5)] : (unsigned)in.range(0, 700); mpz_t t; mpz_init(t); if (k) mpz_urandomb(t, sh.r, 64ull * k); mpz_clear(t); if (k == 248 || k == 560) ci.label("shared_mt_template_buffer_exhausted"); }
   unsigned nt = (unsigned[]){2, 4, 8}[in.range(0, 2)]; size_t len = (size_t)in.range(1, 6 + in.scale / 8); bool same_plan = in.flag();
   std::vector<Plan> plans(nt);
   auto gen_plan = [&](Plan& pl) { pl.seed = in.u64(); pl.skew = (unsigned)in.range(0, 20000);
-    for (size_t s = 0; s < len; s++) { Step st; st.op = (s == 0 && in.chance(180)) ? find_op(FIRST[in.range(0, sizeof FIRST / sizeof FIRST[0] - 1)]) : &OPS[in.range(0, NOPS - 1)]; Sig g = parse_sig(st.op->sig);
+    for (size_t s = 0; s < len; s++) { Step st; if (in.chance(24)) { st.op = nullptr; pl.steps.push_back(st); continue; } st.op = (s == 0 && in.chance(180)) ? find_op(FIRST[in.range(0, sizeof FIRST / sizeof FIRST[0] - 1)]) : &OPS[in.range(0, NOPS - 1)]; Sig g = parse_sig(st.op->sig);
       auto idx = [&](int* v, int nout, int ntot, int npriv, int nsh) { for (int k = 0; k < ntot; k++) { if (k < nout) { int x; int tr = 0; bool ok; do { x = (int)in.range(0, npriv - 1); ok = true; for (int j = 0; j < k; j++) if (v[j] == x) ok = false; } while (!ok && ++tr < 40); if (!ok) for (x = 0; x < npriv; x++) { ok = true; for (int j = 0; j < k; j++) if (v[j] == x) ok = false; if (ok) break; } v[k] = x; } else v[k] = in.chance(150) ? -1 - (int)in.range(0, nsh - 1) : (int)in.range(0, npriv - 1); } };
       idx(st.zi, g.zo, g.zo + g.zi, NZ, SZ); idx(st.qi, g.qo, g.qo + g.qi, NQ, SQ); idx(st.fi, g.fo, g.fo + g.fi, NF, SF);
       st.sc.u[0] = in.flag() ? in.range(0, 300) : in.u64(); st.sc.u[1] = in.flag() ? in.range(0, 200) : in.u64(); st.sc.u[2] = in.range(0, 40); st.sc.s[0] = in.srange(-300, 300); st.sc.s[1] = 0; st.sc.d = (double)in.srange(-1000, 1000) / 8.0; st.sc.base = (int)in.range(0, 255); st.sc.str = gen_string(in);
       pl.steps.push_back(st); } };
   gen_plan(plans[0]); for (unsigned t = 1; t < nt; t++) { if (same_plan) { plans[t] = plans[0]; plans[t].skew = (unsigned)in.range(0, 20000); } else gen_plan(plans[t]); }
   ci.label(nt == 2 ? "threads:2" : nt == 4 ? "threads:4" : "threads:8"); if (same_plan) ci.label("same_sequence_in_all_threads"); if (big) ci.label("fft_size_shared_operand"); ci.nontrivial = true;
-  ci.d("%u threads x %zu steps%s:", nt, len, same_plan ? " (same plan)" : ""); for (auto& s : plans[0].steps) { ci.d(" %s", s.op->name); ci.label(s.op->name); }
+  ci.d("%u threads x %zu steps%s:", nt, len, same_plan ? " (same plan)" : ""); for (auto& s : plans[0].steps) { ci.d(" %s", s.op ? s.op->name : "gmp_randinit_set(shared template)"); ci.label(s.op ? s.op->name : "gmp_randinit_set_from_shared_template"); }
   // concurrent run first (cold tables), three start skews; then the serial reference
   std::vector<uint64_t> conc(nt);
   for (int rep = 0; rep < 3; rep++) {
@@ -67,10 +70,10 @@ static void check(ByteSource& in, CaseInfo& ci) {
     for (unsigned t = 0; t < nt; t++) { if (rep == 0) conc[t] = ta[t].out; else REQUIRE(conc[t] == ta[t].out, "thread %u obtained different results in repetition %d of the same concurrent run", t, rep); }
   }
   for (unsigned t = 0; t < nt; t++) { uint64_t serial = run_plan(plans[t], sh); REQUIRE(serial == conc[t], "thread %u (of %u) obtained results that differ from the single-threaded execution of the same call sequence", t, nt); }
-  for (auto& x : sh.z) mpz_clear(x); for (auto& x : sh.q) mpq_clear(x); for (auto& x : sh.f) mpf_clear(x);
+  for (auto& x : sh.z) mpz_clear(x); for (auto& x : sh.q) mpq_clear(x); for (auto& x : sh.f) mpf_clear(x); gmp_randclear(sh.r);
 }
 namespace eng {
 PropDef g_prop = {"C15",
-  "Cases: 2, 4 or 8 threads, each executing a generated sequence of 1..18 operations from the API table (all reentrant public mpz/mpq/mpf/random/printf/scanf entry points; not mp_set_memory_functions, not the default-precision functions, not the obsolete global-state random functions) on private destinations and a private random state, with inputs taken from private variables or from SHARED read-only sources (one of them of FFT size in 1 of 6 cases, so heap temporaries are used); the first operation is preferably one with lazily used tables or large temporaries (fac, fib, nextprime, probab_prime, get_str/set_str, mul, gcdext, bin, primorial, powm, printf/scanf); all threads may run the same sequence; every thread set is started three times with different start skews. Oracle: (1) ThreadSanitizer on a TSan build of the library (happens-before race detection: any race aborts the case); (2) each thread's digest of all returned values and all private variables after every step equals the digest of the same sequence executed single-threaded, and is the same in all three repetitions. Non-trivial: every case (>= 2 threads share sources). Distinct = hash of all decoded choices.",
-  check, nullptr, {"threads:2", "threads:8", "same_sequence_in_all_threads", "fft_size_shared_operand", "mpz_fac_ui", "mpz_nextprime", "mpz_get_str", "mpz_mul", "mpz_urandomb"}};
+  "Cases: 2, 4 or 8 threads, each executing a generated sequence of 1..18 operations from the API table (all reentrant public mpz/mpq/mpf/random/printf/scanf entry points; not mp_set_memory_functions, not the default-precision functions, not the obsolete global-state random functions) on private destinations and a private random state, with inputs taken from private variables or from SHARED read-only sources (including a shared Mersenne Twister template state, advanced by 0, 247..249, 560 or a random number of limbs, that threads copy with gmp_randinit_set) (one of them of FFT size in 1 of 6 cases, so heap temporaries are used); the first operation is preferably one with lazily used tables or large temporaries (fac, fib, nextprime, probab_prime, get_str/set_str, mul, gcdext, bin, primorial, powm, printf/scanf); all threads may run the same sequence; every thread set is started three times with different start skews. Oracle: (1) ThreadSanitizer on a TSan build of the library (happens-before race detection: any race aborts the case); (2) each thread's digest of all returned values and all private variables after every step equals the digest of the same sequence executed single-threaded, and is the same in all three repetitions. Non-trivial: every case (>= 2 threads share sources). Distinct = hash of all decoded choices.",
+  check, nullptr, {"threads:2", "threads:8", "same_sequence_in_all_threads", "fft_size_shared_operand", "mpz_fac_ui", "mpz_nextprime", "mpz_get_str", "mpz_mul", "mpz_urandomb", "gmp_randinit_set_from_shared_template", "shared_mt_template_buffer_exhausted"}};
 }
